@@ -169,16 +169,22 @@ CLAIMS['C12'] = dict(
     technique='contract-based deductive verification (symbolic execution with callee contracts, real arithmetic, z3) + bounded replication checks')
 CLAIMS['C06'] = dict(
     category='other',
-    text="The carrying obligation is proved for all table sizes on the real code: Atoms.extend_types (with the five num_*_types properties inlined) "
-         "appends the pattern's type tables after the structure's, leaves the pattern unmodified and returns offsets equal to the old table lengths "
-         "whenever a table exists (atom types always), so `pattern id + offset` resolves to the pattern's coefficient text and old ids keep theirs -- "
-         "also when a kind has a table but currently no terms; the pair table stays aligned when the structure has one. Term removal/re-indexing on "
-         "the final delete is C10's proof. Re-targeting and supersession inside extend and the composition over matches and over repeated "
-         "replacements are only checked with a stated bound against a reference model that identifies atoms by position (31 workflows quick, incl. "
-         "two-step replacements, long coefficient texts, terms on the same atoms with a different centre).",
-    note="Level 'other': the term clauses are bounded. Known finding F11: a structure with atom types but no pair table (CIF workflow) gets misaligned "
-         "pair coefficients; printed as KNOWN-FINDING.",
-    technique='contract-based deductive verification of the type-offset obligations (z3) + bounded reference-model comparison')
+    text="Proved for all table sizes on the real code: Atoms.extend_types (with the five num_*_types properties inlined) appends the pattern's type "
+         "tables after the structure's, leaves the pattern unmodified and returns offsets equal to the old table lengths whenever a table exists "
+         "(atom types always), so `pattern id + offset` resolves to the pattern's coefficient text and old ids keep theirs -- also when a kind has a "
+         "table but currently no terms; the pair table stays aligned when the structure has one. Proved for any number of non-overlapping matches "
+         "(replacement block of replace_pattern_in_structure executed against the proved contracts of extend_types / extend / __delitem__, with a "
+         "ghost recording the origin of every appended row): every inserted atom carries the charge, group and type id + offset of a "
+         "replacement-only pattern atom, every atom taken over carries the type id + offset of its pattern atom, none of them is deleted, and "
+         "that type id resolves to the pattern's type label, element and mass. Per call of extend the transfer of the pattern's terms "
+         "(converted through the identity map, type + offset, supersession forwards / backwards) is C11's proof; removal and re-indexing on the "
+         "final delete is C10's. The survival of those terms across later matches and the final delete, and repeated replacements, are only "
+         "checked with a stated bound against a reference model that identifies atoms by position (35 workflows quick, incl. two-step "
+         "replacements, long coefficient texts, terms listed backwards or on the same atoms with a different centre, pattern labels equal to "
+         "the structure's, a pattern in group 0).",
+    note="Level 'other': the composition of the term clauses over several matches is bounded. Known finding F11: a structure with atom types but no pair "
+         "table (CIF workflow) gets misaligned pair coefficients; printed as KNOWN-FINDING. Assumed: contract of the search, non-overlapping matches for the atom clause.",
+    technique='contract-based deductive verification of the type-offset obligations and of the atom clause (modular, ghost state, z3) + bounded reference-model comparison')
 CLAIMS['C09'] = dict(
     category='proof',
     text="Invariant preservation is proved per operation on the real code: assert_arrays_are_consistent_sizes returns normally only if the size "
